@@ -87,7 +87,8 @@ def units():
           ('erase__pE', ['C01', 'C02', 'C05', 'C07', 'C09']), ('erase__pE_pE', ['C01', 'C02', 'C05', 'C07', 'C09']),
           ('assign__%(S)s_rE', ALLP + ['C10']), ('append__%(S)s', ALLP), ('append__%(S)s_rE', ALLP + ['C10']), ('append__pE_pE', ALLP),
           ('at__%(S)s', ['C01', 'C08']), ('at__%(S)s_c', ['C01', 'C08', 'C20']), ('op_index__%(S)s_c', ['C01', 'C20']), ('data__v_c', ['C01', 'C20']),
-          ('end__v_c', ['C01', 'C20']), ('front__v_c', ['C01', 'C20']), ('back__v_c', ['C01', 'C20']), ('empty__v_c', ['C01', 'C20'])]
+          ('end__v_c', ['C01', 'C20']), ('front__v_c', ['C01', 'C20']), ('back__v_c', ['C01', 'C20']), ('empty__v_c', ['C01', 'C20']),
+          ('op_eq__r%(V)s_c', ['C01', 'C20']), ('op_lt__r%(V)s_c', ['C01', 'C20'])]
     # operations defined one level below VectorImpl (DynamicVector / StaticVector)
     DPAT = {'small': 'DynamicVector_E_A_%s_t', 'std': 'DynamicVector_E_A_%s_f', 'static': 'StaticVector_E_%s_Exc'}
     L2D = [('emplace_back__rE', ALLP + ['C10'], 1), ('emplace_back__rrE', ALLP, 2), ('emplace_back__rri32', ALLP, 3),
@@ -99,8 +100,9 @@ def units():
             for fl, (fnum, bpat, vpat) in FLAV.items():
                 for m, props in L2:
                     pp = [p for p in props if not (fl == 'static' and p in ('C06', 'C18')) and not (fl == 'std' and p == 'C05')]
-                    m2 = m % {'S': sz}
-                    add('op.%s.%s.%s.%s' % (m2.split('__')[0] + '_' + m2.split('__')[1], fl, et, sz), (vpat % sz) + '__' + m2, pp, fnum, bpat % sz, sz, elem)
+                    m2 = m % {'S': sz, 'V': vpat % sz}
+                    add('op.%s.%s.%s.%s' % (m2.split('__')[0] + '_' + m2.split('__')[1][:12], fl, et, sz), (vpat % sz) + '__' + m2, pp, fnum, bpat % sz, sz, elem,
+                        throws_reachable=not m2.startswith(('op_eq', 'op_lt')))
                 for m, props, ek in L2D:
                     pp = [p for p in props if not (fl == 'static' and p in ('C06', 'C18')) and not (fl == 'std' and p == 'C05')]
                     m2 = m % {'S': sz}
@@ -117,6 +119,19 @@ def units():
                                   ('swap__r' + V4, ['C01', 'C02', 'C05', 'C06', 'C07'], [b + '__swap_impl__r' + b])]:
                 add('vec4.%s.%s.%s' % (m.split('__')[0] + '_' + m.split('__')[1][:4], et, sz), V4 + '__' + m, props, 1, b, sz, elem, replace=rep)
                 us[-1]['defs']['VEC_N'] = '4'
+    # ---- C15: amc:: emulations of the memory algorithms (configurations before C++17)
+    for m in ['destroy_n__pE_u8', 'destroy_n__pE_i32', 'destroy__pE_pE', 'memory_details__uninitialized_copy_n_impl__pE_i32_pE_Default', 'memory_details__uninitialized_move_n_impl__pE_u8_pE_Default',
+              'memory_details__uninitialized_relocate_n_impl__pE_u8_pE_Default',
+              'uninitialized_value_construct_n__pE_u8_penable_if_is_trivial_iterator_traits_pE__value_type__value__type']:
+        add('mem14.%s.NR' % m[:48], m, ['C15', 'C02', 'C09'], 2, 'StdVectorBase_E_A_u8', 'u8', 'ElemNR', throws_reachable=not (m.startswith('destroy') or '_move_n_' in m or '_relocate_n_' in m))
+        us[-1]['cfg'] = 'main14dbg'
+    # ---- C14: byte-wise relocation lemma on the real accessors, per base flavour (element category TR: the containers that claim the trait)
+    for fl, (fnum, bpat, vpat) in FLAV.items():
+        b = bpat % 'u8'
+        add('lemma.relocate.%s.TR.u8' % fl, 'lemma_relocate', ['C14'], fnum, b, 'u8', 'ElemTR', throws_reachable=False,
+            extra_source='harness/lemma_relocate.c', proto='void lemma_relocate(struct %s *a, struct %s *b)' % (b, b),
+            extra_reach=[b + '__size__v_c', b + '__capacity__v_c', b + '__begin__v_c'])
+        us[-1]['defs'].update({'LEMMA_SIZE(p)': b + '__size__v_c(p)', 'LEMMA_CAPACITY(p)': b + '__capacity__v_c(p)', 'LEMMA_BEGIN(p)': b + '__begin__v_c(p)'})
     # ---- swap2 between flavours (C13): ordered pairs, same 8-bit size type in the quick tier, mixed 8/16-bit in the thorough tier
     FL3 = {'small': (1, 'SmallVectorBase_E_A_%s', 'VectorImpl_E_A_%s_t_Dyn'), 'std': (2, 'StdVectorBase_E_A_%s', 'VectorImpl_E_A_%s_f_Dyn'),
            'static': (3, 'StaticVectorBase_E_%s', 'VectorImpl_E_X_%s_t_Exc')}
@@ -166,4 +181,19 @@ def units():
     for sz in ('u8',):
         add('SafeNextCapacity.%s' % sz, 'SafeNextCapacity__%s_u64_b' % sz, ['C08', 'C18'], 1, svb('ElemNR', sz), sz, 'ElemNR')
     add('ExceptionGrowingPolicy.Check', 'Exc__Check__u64_u64', ['C08'], 1, svb('ElemNR', 'u8'), 'u8', 'ElemNR')
+    # ---- C16: the same contracts re-discharged on the extraction of other configurations
+    #      main14dbg = C++14 (amc:: emulations of the memory algorithms instead of std::), standard API only, assertions enabled
+    #      main20    = C++20 (std::construct_at ...), extras on, NDEBUG
+    extra = []
+    for u in us:
+        if u['id'].startswith('op.') and u['elem'] == 'ElemNR' and u['cfg'] == 'main17':
+            name = u['id'].split('.')[1]
+            for cfg, tier in (('main14dbg', 'quick' if name in ('push_back_rE', 'insert_pE_rE', 'erase_pE_pE', 'resize_u8', 'emplace_back_rE', 'clear_v') else 'thorough'),
+                              ('main20', 'quick' if name in ('push_back_rE', 'insert_pE_rrE', 'erase_pE') else 'thorough')):
+                if cfg == 'main14dbg' and name.startswith('append'):
+                    continue            # append is part of the non-standard extras: not public in this configuration
+                v = dict(u); v['defs'] = dict(u['defs'])
+                v['id'] = u['id'].replace('op.', 'cfg.%s.' % cfg, 1); v['cfg'] = cfg; v['props'] = ['C16']; v['tier'] = tier
+                extra.append(v)
+    us.extend(extra)
     return us
